@@ -1,1 +1,82 @@
-fn main() { refmodel::hello(); }
+//! rust-elf bounded-exhaustive checker. See /verif/DESIGN.md.
+#![allow(dead_code)]
+mod alloc;
+mod framework;
+mod props;
+mod util;
+
+use framework::Tier;
+
+#[global_allocator]
+static GLOBAL: alloc::Counting = alloc::Counting;
+
+fn usage() -> ! {
+    eprintln!("usage: mc check <Cxx> [--tier quick|thorough] | mc replay <file> | mc worker ... | mc list");
+    std::process::exit(2)
+}
+
+fn main() {
+    let args: Vec<String> = std::env::args().collect();
+    if args.len() < 2 {
+        usage();
+    }
+    match args[1].as_str() {
+        "check" => {
+            if args.len() < 3 {
+                usage();
+            }
+            let prop = args[2].clone();
+            let mut tier = std::env::var("VERIF_TIER").ok().map(|t| Tier::parse(&t)).unwrap_or(Tier::Quick);
+            let mut i = 3;
+            while i < args.len() {
+                if args[i] == "--tier" && i + 1 < args.len() {
+                    tier = Tier::parse(&args[i + 1]);
+                    i += 1;
+                }
+                i += 1;
+            }
+            let def = match props::build(&prop, tier) {
+                Some(d) => d,
+                None => {
+                    eprintln!("unknown property {prop}");
+                    std::process::exit(2)
+                }
+            };
+            std::process::exit(framework::controller_main(&def, tier));
+        }
+        "worker" => {
+            // worker <prop> <tier> <space> <a> <b> <out>
+            if args.len() < 8 {
+                usage();
+            }
+            let tier = Tier::parse(&args[3]);
+            let def = props::build(&args[2], tier).expect("property");
+            let code = framework::worker_main(
+                &def,
+                args[4].parse().unwrap(),
+                args[5].parse().unwrap(),
+                args[6].parse().unwrap(),
+                &args[7],
+            );
+            std::process::exit(code);
+        }
+        "replay" => {
+            if args.len() < 3 {
+                usage();
+            }
+            let txt = std::fs::read_to_string(&args[2]).expect("read replay file");
+            let v: serde_json::Value = serde_json::from_str(&txt).expect("replay json");
+            let prop = v["property"].as_str().expect("property");
+            let tier = Tier::parse(v["tier"].as_str().unwrap_or("quick"));
+            let def = props::build(prop, tier).expect("property");
+            let code = framework::replay_main(&def, v["space"].as_u64().unwrap() as usize, v["case"].as_u64().unwrap());
+            std::process::exit(code);
+        }
+        "list" => {
+            for p in props::ALL {
+                println!("{p}");
+            }
+        }
+        _ => usage(),
+    }
+}
